@@ -530,7 +530,7 @@ def make_replay_wrapper(kind):
                     me = ot.OrientedPoint._with(position=Vector(*P), parentOrientation=Orientation.fromEuler(*e))
                 else:
                     me = ot.Object._with(position=Vector(*P), parentOrientation=Orientation.fromEuler(*e), cameraOffset=Vector(*off))
-                occ = [object()]
+                occ = (object(),)  # cached_method: arguments must be hashable
                 me.canSee(Vector(9, 9, 9), occludingObjects=occ)
                 kw = seen[0]
                 want = np.array(P) + (Orientation.fromEuler(*e).getRotation().apply(np.array(off)) if kind == "Object" else 0)
